@@ -766,6 +766,7 @@ class GroupBy:
         if (
             (n_values == 1)
             and isinstance(values, ArrayType1D)
+            and np.ndim(values) == 1  # a 2-D array with one column stays a frame
             or isinstance(values, list)
             and np.ndim(values[0]) == 0
         ):
